@@ -557,13 +557,17 @@ def op_concat(w, ev, slot):
         if via == 1:
             arg = [real] + [p.real for p in partners]
             before = list(arg)
-            res = biom.concat(arg, axis=AXNAME[ax])
+            res = biom.concat(arg, AXNAME[ax]) if ev.get('pos') else \
+                biom.concat(arg, axis=AXNAME[ax])
         elif via == 2:
+            if ev.get('pos'):
+                return real.concat(partners[0].real, AXNAME[ax])
             return real.concat(partners[0].real, axis=AXNAME[ax])
         else:
             arg = [p.real for p in partners]
             before = list(arg)
-            res = real.concat(arg, axis=AXNAME[ax])
+            res = real.concat(arg, AXNAME[ax]) if ev.get('pos') else \
+                real.concat(arg, axis=AXNAME[ax])
         if len(arg) != len(before) or any(x is not y
                                           for x, y in zip(arg, before)):
             w.fail('concat.argument_changed', 'concat modified the list of '
